@@ -6,6 +6,8 @@ package h11
 import (
 	"time"
 
+	_ "go.nanomsg.org/mangos/v3/transport/all"
+
 	"go.nanomsg.org/mangos/v3"
 	"go.nanomsg.org/mangos/v3/zzverif/verif"
 	"go.nanomsg.org/mangos/v3/zzverif/vp"
@@ -195,4 +197,47 @@ func VH11b_core() {
 	verif.Reach("ran")
 	sock.Close()
 	verif.Quiesce()
+}
+
+var tranAddrs = []string{"tcp://127.0.0.1:5555", "tls+tcp://127.0.0.1:5556", "ws://127.0.0.1:5557/x", "wss://127.0.0.1:5558/x", "inproc://opt", "ipc:///tmp/verif.sock"}
+
+// VH11c_transport_options: two goroutines use the option calls of one
+// transport dialer or listener at the same time.
+func VH11c_transport_options() {
+	ti := verif.Choice("tran", len(tranAddrs))
+	addr := tranAddrs[ti]
+	lab := "C11/transport/" + addr
+	sock := vp.New("pair")
+	type obj interface {
+		SetOption(string, interface{}) error
+		GetOption(string) (interface{}, error)
+	}
+	var o obj
+	if verif.Choice("obj", 2) == 0 {
+		d, err := sock.NewDialer(addr, nil)
+		verif.Assert(err == nil, lab+"/new-dialer")
+		o = d
+	} else {
+		l, err := sock.NewListener(addr, nil)
+		verif.Assert(err == nil, lab+"/new-listener")
+		o = l
+	}
+	ops := []func(){
+		func() { o.SetOption(mangos.OptionMaxRecvSize, 100) },
+		func() { o.GetOption(mangos.OptionMaxRecvSize) },
+		func() { o.SetOption(mangos.OptionNoDelay, true) },
+		func() { o.GetOption(mangos.OptionNoDelay) },
+		func() { o.SetOption(mangos.OptionKeepAliveTime, time.Second) },
+		func() { o.GetOption(mangos.OptionKeepAliveTime) },
+		func() { o.GetOption(mangos.OptionReadQLen) },
+	}
+	a := verif.Choice("opA", len(ops))
+	b := verif.Choice("opB", len(ops))
+	verif.Assume(a <= b)
+	ga := verif.Go("A", ops[a])
+	gb := verif.Go("B", ops[b])
+	verif.Quiesce()
+	verif.Assert(ga.Done() && gb.Done(), lab+"/option-calls-blocked")
+	verif.Reach("ran")
+	sock.Close()
 }
